@@ -125,7 +125,7 @@ def run(chk, replay=None):
     drv_ok = ok or ok2
 
     # cap per configuration, random configurations, random schedules, probes, preemption bound
-    sched_args = [chk.seed] + ([150, 6, 24, 60] if quick else [4000, 40, 300, 700]) + [disc, int(seal_atomic), 2 if quick else 3]
+    sched_args = [chk.seed] + ([150, 6, 24, 60] if quick else [1000, 16, 250, 600]) + [disc, int(seal_atomic), 2 if quick else 3]
     if replay:
         r = json.load(open(replay))["replay"]
         if "sched_args" in r:
@@ -263,7 +263,7 @@ def run(chk, replay=None):
 
     # ---- (b) stress under TSan and ASan --------------------------------------------------------------
     if not replay:
-        u = 1 if quick else 50
+        u = 1 if quick else 40
         s = chk.seed
         #        cfg     seed     ms        readers writers clearers savers loaders proxies varlen
         runs = [("tsan", [s, 2000 * u, 3, 2, 1]),
